@@ -94,7 +94,11 @@ theorem streamOnly_facts {s s' : StreamProc.SS} {op : StreamProc.Op} (ho : strea
        · first
          | (simp at h; subst h; exact ⟨rfl, rfl, rfl⟩)
          | (split at h <;> (simp at h; subst h; exact ⟨rfl, rfl, rfl⟩))
-       · simp at h)
+       · first
+         | (simp at h; done)
+         | (split at h
+            · simp at h; subst h; exact ⟨rfl, rfl, rfl⟩
+            · simp at h))
     | simp at ho
 
 /-- the non-joint steps of M1 do not touch what the link talks about -/
